@@ -185,7 +185,7 @@ Section CanonProofs.
       - destruct (span (contains_char ":") r1) as [bs r2].
         destruct (map_opt parse_range (first :: bs)) as [bounds|]; [|discriminate].
         destruct (bounds_size bounds <=? 0)%Z; [discriminate|].
-        destruct (expand_ints e (Z.to_nat (bounds_size bounds)) r2 []) as [[us r3]|]; [|discriminate].
+        destruct (expand_ints SC e (Z.to_nat (bounds_size bounds)) r2 []) as [[us r3]|]; [|discriminate].
         cbn [bind] in H. destruct (span numeric_start r3) as [ps r'].
         destruct (map_opt (pyfloat e) ps); [|discriminate].
         destruct (fill_params SC false e elt ps l); cbn in H; [|discriminate].
@@ -236,7 +236,7 @@ Section CanonProofs.
              [destruct (span (contains_char ":") r1) as [bs r2];
               destruct (map_opt parse_range (first :: bs)) as [bounds|]; [|discriminate];
               destruct (bounds_size bounds <=? 0)%Z; [discriminate|];
-              destruct (expand_ints e (Z.to_nat (bounds_size bounds)) r2 []) as [[us r3]|]; [|discriminate];
+              destruct (expand_ints SC e (Z.to_nat (bounds_size bounds)) r2 []) as [[us r3]|]; [|discriminate];
               cbn [bind] in H; destruct (span numeric_start r3) as [ps r'];
               destruct (map_opt (pyfloat e) ps); [|discriminate];
               destruct (fill_params SC false e elt ps l); cbn in H; [|discriminate];
